@@ -211,7 +211,7 @@ fn sched_property(tier: Tier, only: Option<String>) -> i32 {
         "traces_validated_against_impl": execs,
         "evaluations": execs,
         "distinct_nontrivial": outcomes,
-        "rule": "one evaluation = one complete controlled execution of 2-3 real OS threads calling into one real Core/Bridge (exactly one thread runs at a time; switches only at the schedule points compiled in under --cfg crux_verif and at the modelled model/registry locks); states/transitions = scheduling decisions taken; all schedules with at most `preemption_bound` preemptions are enumerated by depth-first search over choice prefixes, bounds iterated 0,1,2(,3). Oracle: no panic/deadlock/livelock, outcome (multiset of effects returned by all calls, multiset of applied events, per-task order, rejections, quiescence gauges, empty no-op probe, behaviour of a sequential drain of everything still outstanding) equals the outcome of some sequential order of the same calls executed on the real code (orders respecting each caller's own call order are the reference; an outcome that only an order swapping two calls of ONE caller explains is accepted, as the property asks for some sequential order of the calls, and is counted under executions_explained_only_by_swapping_two_calls_of_one_caller). distinct_nontrivial = distinct final event logs over all scenarios.",
+        "rule": "one evaluation = one complete controlled execution of 2-3 real OS threads calling into one real Core/Bridge (exactly one thread runs at a time; switches only at the schedule points compiled in under --cfg crux_verif and at every lock operation of crux_core's Mutex/RwLock, which verification builds replace by instrumented types); states/transitions = scheduling decisions taken; all schedules with at most `preemption_bound` preemptions are enumerated by depth-first search over choice prefixes, bounds iterated 0,1,2(,3). Oracle: no panic/deadlock/livelock, outcome (multiset of effects returned by all calls, multiset of applied events, per-task order, rejections, quiescence gauges, empty no-op probe, behaviour of a sequential drain of everything still outstanding) equals the outcome of some sequential order of the same calls executed on the real code (orders respecting each caller's own call order are the reference; an outcome that only an order swapping two calls of ONE caller explains is accepted, as the property asks for some sequential order of the calls, and is counted under executions_explained_only_by_swapping_two_calls_of_one_caller). distinct_nontrivial = distinct final event logs over all scenarios.",
         "preemption_bound": bound,
         "executions_explained_only_by_swapping_two_calls_of_one_caller": reordered,
         "sample_execution_explained_only_by_swapping_two_calls_of_one_caller": reordered_sample,
